@@ -154,6 +154,7 @@ package dawn
 //@   ensures  success-recorded: (n_body == old(n_body) + 1 && body_ok && result == nil) ==> (phase == 2 && n_save == old(n_save) + 1 && !saved_rerun && saved_data == t.data && saved_deps == depData)
 //@   ensures  success-stamp: (n_body == old(n_body) + 1 && body_ok && result == nil && t.changed) ==> t.data == body_data
 //@   callsite TargetUpToDate: assert skip-sound: !proj.always && depsUpToDate && upToDate && !info.Rerun
+//@   callsite TargetEvaluating: assert not-skippable: proj.always || !depsUpToDate || !upToDate || info.Rerun
 //@   callsite evaluate: assert after-evaluating: phase == 1 && !proj.dryrun
 //@   modifies heap, phase, was_eval, n_body, body_ok, body_data, n_save, saved_rerun, saved_data, saved_deps
 //@   loop 0: invariant phase == 0 && !was_eval && n_body == old(n_body) && n_save == old(n_save)
@@ -193,3 +194,10 @@ package dawn
 //@   ensures  run-done-once: n_rundone == old(n_rundone) + 1 && rundone_err == result
 //@   callsite RunDone: assert after-runner: n_runs == old(n_runs) + 1
 //@   modifies heap, n_rundone, rundone_err, n_runs
+
+// The up-to-date checks are read-only with respect to the file system (C13: a dry run reaches
+// nothing else that could write): they may only update in-memory fields of the target.
+//@ func (*dawn.function).upToDate variant effects
+//@   noeffects fswrite
+//@ func (*dawn.sourceFile).upToDate variant effects
+//@   noeffects fswrite
